@@ -441,7 +441,17 @@ static void runUntilPark(VProc &v, pid_t exitOf = 0, long *exitResult = 0, bool 
       if (WIFSTOPPED(st)) pendingStops.insert(tid);   // child seen before its parent's fork event
       continue;
     }
-    if (it->second != v.id) die("event from vproc %d while vproc %d runs", it->second, v.id);
+    if (it->second != v.id) {
+      VProc &o = V[it->second];
+      if (o.killed || o.done) {
+        // a straggler of a vproc that was killed by a fault (e.g. a child whose fork was in flight when the
+        // SIGKILLs went out): it must not run on; finish it off and forget it
+        if (WIFEXITED(st) || WIFSIGNALED(st)) { o.tasks.erase(tid); task2v.erase(tid); }
+        else { kill(tid, SIGKILL); ptrace(PTRACE_CONT, tid, 0, 0); }
+        continue;
+      }
+      die("event from vproc %d while vproc %d runs", it->second, v.id);
+    }
     if (WIFEXITED(st) || WIFSIGNALED(st)) {
       if (tid == v.leader) {
         if (WIFEXITED(st)) v.exitStatus = WEXITSTATUS(st); else v.termSig = WTERMSIG(st);
@@ -532,7 +542,6 @@ static void killVProc(VProc &v) {
       ptrace(PTRACE_CONT, tid, 0, 0);
     }
   }
-  v.tasks.clear();
   v.done = true;
 }
 
